@@ -51,32 +51,33 @@ type lyWitness struct {
 }
 
 type lyResult struct {
-	Rows           int                  `json:"rows"`
-	BufExecutions  int                  `json:"buf_executions"`
-	CreateOK       int                  `json:"create_ok"`
-	CreateErr      int                  `json:"create_err"`
-	PeerMapped     int                  `json:"peer_mapped"`
-	BackendFile    int                  `json:"backend_file"`
-	BackendMemfd   int                  `json:"backend_memfd"`
-	SlotsChecked   int64                `json:"slots_checked"`
-	SlicesPopped   int64                `json:"slices_popped"`
-	BytesPatterned int64                `json:"bytes_patterned"`
-	QueueExec      int                  `json:"queue_executions"`
-	QueueElems     int64                `json:"queue_elements"`
-	Conforming     int                  `json:"conforming"`
-	Drift          []string             `json:"drift"`
-	DriftCount     int                  `json:"drift_count"`
-	Violations     []lyViolation        `json:"violations"`
-	ViolationCount int                  `json:"violation_count"`
-	Samples        []string             `json:"samples"`
-	Witness        map[string]lyWitness `json:"witness"`
-	EdgeCases      int                  `json:"edge_cases"`
-	EdgeSkipped    int                  `json:"edge_skipped_known"`
-	MemfdLeaked    int                  `json:"memfd_left_open_on_failed_create"`
-	OOBHeaderWrite int                  `json:"oob_header_write"` // createBufferManager stored listNum past a 1-byte mapping
-	CounterOffs    []int64              `json:"counter_offsets"`  // creator, mapper (named deviation D3)
-	Arm            bool                 `json:"arm"`
-	SkippedArmRows int                  `json:"skipped_arm_rows"`
+	Rows             int                  `json:"rows"`
+	BufExecutions    int                  `json:"buf_executions"`
+	CreateOK         int                  `json:"create_ok"`
+	CreateErr        int                  `json:"create_err"`
+	PeerMapped       int                  `json:"peer_mapped"`
+	BackendFile      int                  `json:"backend_file"`
+	BackendMemfd     int                  `json:"backend_memfd"`
+	HeldWhileMapping int64                `json:"buffers_held_while_peer_mapped"`
+	SlotsChecked     int64                `json:"slots_checked"`
+	SlicesPopped     int64                `json:"slices_popped"`
+	BytesPatterned   int64                `json:"bytes_patterned"`
+	QueueExec        int                  `json:"queue_executions"`
+	QueueElems       int64                `json:"queue_elements"`
+	Conforming       int                  `json:"conforming"`
+	Drift            []string             `json:"drift"`
+	DriftCount       int                  `json:"drift_count"`
+	Violations       []lyViolation        `json:"violations"`
+	ViolationCount   int                  `json:"violation_count"`
+	Samples          []string             `json:"samples"`
+	Witness          map[string]lyWitness `json:"witness"`
+	EdgeCases        int                  `json:"edge_cases"`
+	EdgeSkipped      int                  `json:"edge_skipped_known"`
+	MemfdLeaked      int                  `json:"memfd_left_open_on_failed_create"`
+	OOBHeaderWrite   int                  `json:"oob_header_write"` // createBufferManager stored listNum past a 1-byte mapping
+	CounterOffs      []int64              `json:"counter_offsets"`  // creator, mapper (named deviation D3)
+	Arm              bool                 `json:"arm"`
+	SkippedArmRows   int                  `json:"skipped_arm_rows"`
 }
 
 type lyState struct {
@@ -404,11 +405,12 @@ func (st *lyState) lyExchange(a, b *bufferManager, ga lyGeom) string {
 type lyBufRow struct {
 	raw        []int64
 	global     bool
+	held       int64 // buffers of every class the creator holds while the peer maps; -1 = all that can be allocated
 	mem        int64
 	pairs      [][2]int64
 	okA        bool
 	okB        int64
-	lists      [][3]int64
+	lists      [][5]int64 // off, cap, capPer, size word and head word at the moment the peer maps
 	used       int64
 	ascending  bool
 	distinctSz bool
@@ -417,12 +419,12 @@ type lyBufRow struct {
 func lyParseBuf(r []int64) (lyBufRow, error) {
 	var b lyBufRow
 	b.raw = r
-	if len(r) < 7 {
+	if len(r) < 8 {
 		return b, fmt.Errorf("short row")
 	}
-	b.global, b.mem = r[0] == 1, r[1]
-	n := int(r[2])
-	p := 3
+	b.global, b.held, b.mem = r[0] == 1, r[1], r[2]
+	n := int(r[3])
+	p := 4
 	if len(r) < p+2*n+4 {
 		return b, fmt.Errorf("short row")
 	}
@@ -433,12 +435,12 @@ func lyParseBuf(r []int64) (lyBufRow, error) {
 	b.okA, b.okB = r[p] == 1, r[p+1]
 	k := int(r[p+2])
 	p += 3
-	if len(r) != p+3*k+1 {
-		return b, fmt.Errorf("row length %d, expected %d", len(r), p+3*k+1)
+	if len(r) != p+5*k+1 {
+		return b, fmt.Errorf("row length %d, expected %d", len(r), p+5*k+1)
 	}
 	for i := 0; i < k; i++ {
-		b.lists = append(b.lists, [3]int64{r[p], r[p+1], r[p+2]})
-		p += 3
+		b.lists = append(b.lists, [5]int64{r[p], r[p+1], r[p+2], r[p+3], r[p+4]})
+		p += 5
 	}
 	b.used = r[p]
 	b.ascending, b.distinctSz = true, true
@@ -468,11 +470,34 @@ func lyPairs(b lyBufRow) []*SizePercentPair {
 const lyGuard = 64
 
 type lyViews struct {
+	held    [][]*bufferSlice // per class: what the creator allocated before the peer attached
 	a, b    *bufferManager
 	errA    error
 	errB    error
 	cleanup func()
 	guardOK func() string
+}
+
+// the creator allocates k buffers of every class through the real pop before the peer attaches (late attach, hot restart)
+func lyHold(v *lyViews, k int64) {
+	if v.a == nil || k == 0 {
+		return
+	}
+	for _, l := range v.a.lists {
+		want := int64(*l.cap) - 1
+		if k >= 0 && k < want {
+			want = k
+		}
+		var got []*bufferSlice
+		for int64(len(got)) < want {
+			s, err := l.pop()
+			if err != nil {
+				break
+			}
+			got = append(got, s)
+		}
+		v.held = append(v.held, got)
+	}
 }
 
 func lyDropRegistry(path string) {
@@ -503,6 +528,9 @@ func (st *lyState) lyBuild(v *lyViews, b lyBufRow, backend int, wantPeer bool) {
 			return ""
 		}
 		v.a, v.errA = createBufferManager(lyPairs(b), "vs-layout", mem, 0)
+		if v.errA == nil {
+			lyHold(v, b.held)
+		}
 		if v.errA == nil && wantPeer {
 			v.b, v.errB = mappingBufferManager("vs-layout", mem, 0)
 		}
@@ -519,6 +547,7 @@ func (st *lyState) lyBuild(v *lyViews, b lyBufRow, backend int, wantPeer bool) {
 		v.a, v.errA = getGlobalBufferManager(path, uint32(b.mem), true, lyPairs(b))
 		if v.errA == nil {
 			mems = append(mems, v.a.mem)
+			lyHold(v, b.held)
 			lyDropRegistry(path) // the peer is another process: it has its own registry
 			if wantPeer {
 				v.b, v.errB = getGlobalBufferManager(path, 0, false, nil)
@@ -557,6 +586,7 @@ func (st *lyState) lyBuild(v *lyViews, b lyBufRow, backend int, wantPeer bool) {
 		if v.errA == nil {
 			mems = append(mems, v.a.mem)
 			fds = append(fds, v.a.memFd)
+			lyHold(v, b.held)
 			lyDropRegistry(path)
 			if wantPeer {
 				fd2, err := syscall.Dup(v.a.memFd) // what SCM_RIGHTS gives the peer
@@ -622,6 +652,53 @@ func (st *lyState) lyRunBuf(b lyBufRow, backend int) {
 		for _, x := range gb.Lists {
 			pc = append(pc, x.Counter)
 		}
+		// the peer attached while the creator holds buffers: same classes, capacities, regions, and the free count / head
+		// words are the predicted ones; every held buffer lies inside the peer's region of its class
+		ga = lyGeomOf(v.a)
+		heldN := int64(0)
+		if s := lySameView(ga, gb); s != "" {
+			bad, kind = fmt.Sprintf("peer attached while the creator held %d buffers per class: %s", b.held, s), "peer derives a different layout"
+			return
+		}
+		wordsOK := len(ga.Lists) == len(b.lists)
+		for i, x := range ga.Lists {
+			if x.RegionLen < x.Cap*(x.CapPer+bufferHeaderSize) || gb.Lists[i].RegionLen < x.Cap*(x.CapPer+bufferHeaderSize) {
+				bad, kind = fmt.Sprintf("class %d: region of %d/%d bytes (creator/peer) cannot hold cap=%d slots of %d+%d bytes", i, x.RegionLen,
+					gb.Lists[i].RegionLen, x.Cap, bufferHeaderSize, x.CapPer), "layout unsound"
+				return
+			}
+			if wordsOK && (x.Size != b.lists[i][3] || x.Head != b.lists[i][4]) {
+				wordsOK = false
+			}
+			if i < len(v.held) {
+				for _, hs := range v.held[i] {
+					heldN++
+					o := int64(hs.offsetInShm)
+					y := gb.Lists[i]
+					if o < y.RegionOff || o+bufferHeaderSize+x.CapPer > y.RegionOff+y.RegionLen {
+						bad, kind = fmt.Sprintf("class %d: buffer at %d held by the creator lies outside the peer's region [%d,%d)", i, o, y.RegionOff,
+							y.RegionOff+y.RegionLen), "peer derives a different layout"
+						return
+					}
+				}
+			}
+		}
+		st.res.HeldWhileMapping += heldN
+		// the peer gives the held buffers back through its own view (it received their offsets), then everything is free again
+		for i := range v.held {
+			for _, hs := range v.held[i] {
+				ps, err := v.b.readBufferSlice(hs.offsetInShm)
+				if err != nil {
+					bad, kind = fmt.Sprintf("class %d: peer cannot read the held buffer at %d: %v", i, hs.offsetInShm, err), "buffers not exchanged faithfully"
+					return
+				}
+				v.b.lists[i].push(ps)
+				putBackBufferSlice(ps)
+				putBackBufferSlice(hs)
+			}
+		}
+		v.held = nil
+		ga, gb = lyGeomOf(v.a), lyGeomOf(v.b)
 		if s := st.lyViewOK(v.a, ga, pc); s != "" {
 			bad, kind = "creator view: "+s, "layout unsound"
 			return
@@ -679,7 +756,7 @@ func (st *lyState) lyRunBuf(b lyBufRow, backend int) {
 		// conformance with the prediction
 		usedWord := int64(*(*uint32)(unsafe.Pointer(&v.a.mem[bmCapOffset]))) + bufferManagerHeaderSize
 		listNum := int64(*(*uint16)(unsafe.Pointer(&v.a.mem[0])))
-		conf := b.okA && b.okB == 1 && len(b.lists) == len(ga.Lists) && usedWord == b.used && listNum == int64(len(b.lists))
+		conf := wordsOK && b.okA && b.okB == 1 && len(b.lists) == len(ga.Lists) && usedWord == b.used && listNum == int64(len(b.lists))
 		if conf {
 			for i, x := range ga.Lists {
 				if x.Off != b.lists[i][0] || x.Cap != b.lists[i][1] || x.CapPer != b.lists[i][2] ||
